@@ -111,6 +111,42 @@ func Canonical(cur []byte, ok func([]byte) bool) []byte {
 			next++
 		}
 	}
+	// an identifier that occurs again only by accident gets a letter of its own
+	for k := 0; k < 8; k++ {
+		locs := identRe.FindAllIndex(cur, -1)
+		used := map[string]bool{}
+		for _, l := range locs {
+			used[string(cur[l[0]:l[1]])] = true
+		}
+		changed := false
+		first := map[string]bool{}
+		for _, l := range locs {
+			name := string(cur[l[0]:l[1]])
+			if !first[name] {
+				first[name] = true
+				continue
+			}
+			fresh := byte(0)
+			for c := byte('a'); c <= 'z'; c++ {
+				if !used[string(c)] {
+					fresh = c
+					break
+				}
+			}
+			if fresh == 0 {
+				break
+			}
+			cand := append(append(append([]byte(nil), cur[:l[0]]...), fresh), cur[l[1]:]...)
+			if ok(cand) {
+				cur = cand
+				changed = true
+				break
+			}
+		}
+		if !changed {
+			break
+		}
+	}
 	cand := digitsRe.ReplaceAllFunc(cur, func(d []byte) []byte { return bytes.Repeat([]byte{'9'}, len(d)) })
 	if !bytes.Equal(cand, cur) && ok(cand) {
 		cur = cand
